@@ -52,7 +52,15 @@ impl<'a, T> Iterator for Iter<'a, T> {
     type Item = &'a T;
 
     fn next(&mut self) -> Option<Self::Item> {
-        self.impl_next_rec(self.view.dimensions() - 1)
+        match self.view.dimensions().checked_sub(1) {
+            Some(axis) => self.impl_next_rec(axis),
+            None if self.index == 0 => {
+                // A view of a one-dimensional array has no axes left and holds a single element
+                self.index += 1;
+                self.view.data.first()
+            }
+            None => None,
+        }
     }
 
     fn size_hint(&self) -> (usize, Option<usize>) {
